@@ -12,6 +12,8 @@ pub struct FnDef {
     pub block: syn::Block,
     pub file: String,
     pub line: usize,
+    pub attrs: Vec<String>,
+    pub is_trait_impl: Option<String>,
 }
 
 #[derive(Debug, Clone)]
@@ -35,6 +37,8 @@ pub struct Index {
     pub consts: BTreeMap<String, syn::Expr>,
     pub files: Vec<String>,
     pub n_fns: usize,
+    pub n_templates: usize,
+    pub root: PathBuf,
 }
 
 pub fn ty_str(t: &syn::Type) -> String {
@@ -53,6 +57,7 @@ fn self_ty_name(t: &syn::Type) -> String {
 impl Index {
     pub fn load(root: &Path) -> Result<Index, String> {
         let mut ix = Index::default();
+        ix.root = root.to_path_buf();
         let lib = root.join("lib.rs");
         ix.load_file(&lib, root)?;
         Ok(ix)
@@ -62,6 +67,18 @@ impl Index {
         let src = std::fs::read_to_string(file).map_err(|e| format!("{}: {e}", file.display()))?;
         let ast = syn::parse_file(&src).map_err(|e| format!("{}: {e}", file.display()))?;
         let rel = file.strip_prefix(root).unwrap_or(file).display().to_string();
+        for m in ["quote!", "quote_spanned!", "parse_quote!"] {
+            // count macro invocation sites outside comments
+            for line in src.lines() {
+                let code = line.split("//").next().unwrap_or("");
+                let mut rest = code;
+                while let Some(i) = rest.find(m) {
+                    let before_ok = i == 0 || !rest.as_bytes()[i - 1].is_ascii_alphanumeric() && rest.as_bytes()[i - 1] != b'_';
+                    if before_ok { self.n_templates += 1; }
+                    rest = &rest[i + m.len()..];
+                }
+            }
+        }
         self.files.push(rel.clone());
         // directory for child modules
         let stem = file.file_stem().unwrap().to_string_lossy().to_string();
@@ -92,13 +109,13 @@ impl Index {
                     }
                 }
                 syn::Item::Fn(f) => {
-                    self.add_fn(None, &f.sig, &f.block, rel);
+                    self.add_fn(None, &f.sig, &f.block, rel, &f.attrs, None);
                 }
                 syn::Item::Impl(im) => {
                     let st = self_ty_name(&im.self_ty);
                     for ii in &im.items {
                         match ii {
-                            syn::ImplItem::Fn(f) => self.add_fn(Some(st.clone()), &f.sig, &f.block, rel),
+                            syn::ImplItem::Fn(f) => self.add_fn(Some(st.clone()), &f.sig, &f.block, rel, &f.attrs, im.trait_.as_ref().map(|t| t.1.segments.last().map(|s| s.ident.to_string()).unwrap_or_default())),
                             syn::ImplItem::Const(c) => {
                                 self.consts.insert(format!("{}::{}", st, c.ident), c.expr.clone());
                             }
@@ -137,7 +154,7 @@ impl Index {
         Ok(())
     }
 
-    fn add_fn(&mut self, self_ty: Option<String>, sig: &syn::Signature, block: &syn::Block, rel: &str) {
+    fn add_fn(&mut self, self_ty: Option<String>, sig: &syn::Signature, block: &syn::Block, rel: &str, attrs: &[syn::Attribute], is_trait_impl: Option<String>) {
         let name = sig.ident.to_string();
         let qual = match &self_ty {
             Some(t) => format!("{t}::{name}"),
@@ -152,6 +169,8 @@ impl Index {
             block: block.clone(),
             file: rel.to_string(),
             line,
+            attrs: attrs.iter().map(|a| a.path().segments.last().map(|s| s.ident.to_string()).unwrap_or_default()).collect(),
+            is_trait_impl,
         }));
     }
 
